@@ -17,7 +17,15 @@ func TestC19Debug(t *testing.T) {
 	if err := json.Unmarshal([]byte(s), &cs); err != nil {
 		t.Fatal(err)
 	}
-	r := c19Exec(t, cs)
+	var lines []string
+	var dbg func(string)
+	if os.Getenv("C19_QLOG") != "" {
+		dbg = func(s string) { lines = append(lines, s) }
+	}
+	r := c19ExecDbg(t, cs, dbg)
+	for _, l := range lines {
+		t.Log(l)
+	}
 	for _, e := range r.trace {
 		t.Logf("idx=%d dir=%d size=%d %s", e.Idx, e.Dir, e.Size, e.Act)
 	}
